@@ -27,12 +27,15 @@ import (
 //                      later in the same block (tuple assignments are read position by position);
 //   both:              L is assigned at all (a state that is never updated stays 0).
 // Anything else assigned to L is a violation that names the statement.
+//   restart (writer states that are fields, i.e. outlive one call): in every block of the package
+//                      that restarts the sequence the differences are appended to (S = S[0:0]), L is
+//                      reset to 0 as well — the reader starts every sequence from 0.
 func init() {
 	register(&Rule{
 		Name:  "PBF-DELTA",
 		IR:    "ast",
 		Props: []string{"C27"},
-		Floor: 8,
+		Floor: 11,
 		Doc: "in package osm every delta-coding state (a variable or field named last…) is updated, after each element, with the element's absolute value — " +
 			"the writer's minuend, the reader's accumulated sum — and with nothing else except a reset to 0",
 		Run: runPBFDelta,
@@ -262,6 +265,302 @@ func runPBFDelta(c *Ctx) []Obligation {
 				ob.Detail = fmt.Sprintf("delta state %s (%s side) is updated with the element's absolute value: %s", s.text, kind, strings.Join(updates, "; "))
 			}
 			out = append(out, ob)
+			// restart pairing (writer states that outlive the call, i.e. fields): wherever the sequence the
+			// differences are appended to is restarted (S = S[0:0]), the base restarts with it (L = 0 in the same block)
+			if _, isField := o.(*types.Var); isField && o.(*types.Var).IsField() {
+				var seq ast.Expr
+				ast.Inspect(fd.Body, func(n ast.Node) bool {
+					as, ok := n.(*ast.AssignStmt)
+					if !ok || len(as.Lhs) != 1 || len(as.Rhs) != 1 {
+						return true
+					}
+					call, ok := ast.Unparen(as.Rhs[0]).(*ast.CallExpr)
+					if !ok || !isBuiltin(info, call, "append") || len(call.Args) != 2 || !sameExpr(info, as.Lhs[0], call.Args[0]) {
+						return true
+					}
+					uses := false
+					ast.Inspect(call.Args[1], func(m ast.Node) bool {
+						switch x := m.(type) {
+						case *ast.BinaryExpr:
+							if x.Op == token.SUB {
+								if so, _ := stateObj(x.Y); so == o {
+									uses = true
+								}
+							}
+						case *ast.Ident:
+							for _, d := range s.diffs {
+								if info.Uses[x] == d {
+									uses = true
+								}
+							}
+						}
+						return true
+					})
+					if uses {
+						seq = as.Lhs[0]
+					}
+					return true
+				})
+				if seq != nil {
+					seqText := nodeText(c.Fset, seq)
+					rob := Obligation{Key: fmt.Sprintf("%s#%s.restart", name, s.text), Pos: c.Position(seq.Pos()), Status: OK}
+					var restarts, bad []string
+					for _, gd := range c.FuncDecls(p) {
+						ast.Inspect(gd.Body, func(n ast.Node) bool {
+							blk, ok := n.(*ast.BlockStmt)
+							if !ok {
+								return true
+							}
+							truncated, reset := "", false
+							for _, st := range blk.List {
+								as, ok := st.(*ast.AssignStmt)
+								if !ok || len(as.Lhs) != len(as.Rhs) {
+									continue
+								}
+								for i, l := range as.Lhs {
+									if se, ok := ast.Unparen(as.Rhs[i]).(*ast.SliceExpr); ok && nodeText(c.Fset, l) == seqText && nodeText(c.Fset, se.X) == seqText && se.High != nil && isZero(se.High) {
+										truncated = c.Position(as.Pos())
+									}
+									if lo, _ := stateObj(l); lo == o && isZero(as.Rhs[i]) {
+										reset = true
+									}
+								}
+							}
+							if truncated != "" {
+								if reset {
+									restarts = append(restarts, truncated)
+								} else {
+									bad = append(bad, fmt.Sprintf("%s is restarted at %s but %s is not reset to 0 in that block: the first element of the new sequence is written as a difference from the last element of the previous one, while the reader starts every sequence from 0", seqText, truncated, s.text))
+								}
+							}
+							return true
+						})
+					}
+					switch {
+					case len(bad) > 0:
+						rob.Status, rob.Detail = Violation, strings.Join(bad, "; ")
+					case len(restarts) == 0:
+						rob.Status, rob.Detail = Info, fmt.Sprintf("no restart of %s found", seqText)
+					default:
+						rob.Detail = fmt.Sprintf("%s restarts together with its sequence %s (at %s)", s.text, seqText, strings.Join(restarts, ", "))
+					}
+					out = append(out, rob)
+				}
+			}
+		}
+	}
+	return out
+}
+
+// PBF-SENTINEL (C27): the dense-node tag stream interleaves string-table indices with a constant
+// terminator (`append(KeysVals, 0)` after each node's tags; the reader stops a node's tags at the
+// first 0 in key position). The scheme works only if no string is ever given the terminator as its
+// index: the table must keep a reserved entry and the string→index map must never hold that value.
+//
+// Slots (by shape, package osm): a *terminated stream* is a slice Q that one function appends both
+// a constant K and the results of a module function F to. In F, the map M that is consulted and
+// the table T whose length is handed out as the next index are read from the code
+// (`if i, ok = M[s]; !ok { i = len(T); T = append(T, …); M[s] = i }`). Obligations:
+//   #map     every store into M anywhere in the package stores the value taken from len(T) in F — a
+//            store of a constant (in particular K) is a violation;
+//   #table   every re-slice of T keeps more than K entries (T = T[0:n] with constant n > K), and T is
+//            created with a length > K.
+func init() {
+	register(&Rule{
+		Name:  "PBF-SENTINEL",
+		IR:    "ast",
+		Props: []string{"C27"},
+		Floor: 2,
+		Doc: "in package osm a stream that is terminated by a constant (the dense-node tag stream, terminated by 0) never receives that constant as a string index: " +
+			"the string→index map is only ever filled with len(table), and the table never shrinks to the reserved entries or below",
+		Run: runPBFSentinel,
+	})
+}
+
+func runPBFSentinel(c *Ctx) []Obligation {
+	var out []Obligation
+	p := c.Pkg("osm")
+	if p == nil {
+		return out
+	}
+	info := p.TypesInfo
+	constInt := func(e ast.Expr) (int64, bool) {
+		tv := info.Types[e]
+		if tv.Value == nil {
+			return 0, false
+		}
+		s := tv.Value.ExactString()
+		var k int64
+		if _, err := fmt.Sscanf(s, "%d", &k); err != nil {
+			return 0, false
+		}
+		return k, true
+	}
+	for _, fd := range c.FuncDecls(p) {
+		name := c.FuncName(p, fd)
+		// Q: appended both a constant and a module call
+		type stream struct {
+			k     int64
+			kpos  token.Pos
+			f     *types.Func
+			qtext string
+		}
+		streams := map[string]*stream{}
+		ast.Inspect(fd.Body, func(n ast.Node) bool {
+			as, ok := n.(*ast.AssignStmt)
+			if !ok || len(as.Lhs) != 1 || len(as.Rhs) != 1 {
+				return true
+			}
+			call, ok := ast.Unparen(as.Rhs[0]).(*ast.CallExpr)
+			if !ok || !isBuiltin(info, call, "append") || len(call.Args) != 2 || !sameExpr(info, as.Lhs[0], call.Args[0]) {
+				return true
+			}
+			q := nodeText(c.Fset, as.Lhs[0])
+			if streams[q] == nil {
+				streams[q] = &stream{k: -1, qtext: q}
+			}
+			if k, ok := constInt(call.Args[1]); ok {
+				streams[q].k, streams[q].kpos = k, call.Pos()
+			} else if inner, ok := ast.Unparen(call.Args[1]).(*ast.CallExpr); ok {
+				if g := calleeFunc(info, inner); g != nil && g.Pkg() != nil && g.Pkg().Path() == p.PkgPath {
+					streams[q].f = g
+				}
+			}
+			return true
+		})
+		for _, q := range sortedKeys(streams) {
+			st := streams[q]
+			if st.k < 0 || st.f == nil {
+				continue
+			}
+			gd, _ := c.Decl(st.f)
+			if gd == nil || gd.Body == nil {
+				continue
+			}
+			// in F: M (map indexed) and T (len(T))
+			var mExpr, tExpr ast.Expr
+			var idxVar types.Object
+			ast.Inspect(gd.Body, func(n ast.Node) bool {
+				switch x := n.(type) {
+				case *ast.IndexExpr:
+					if _, ok := info.TypeOf(x.X).Underlying().(*types.Map); ok && mExpr == nil {
+						mExpr = x.X
+					}
+				case *ast.AssignStmt:
+					if len(x.Lhs) == 1 && len(x.Rhs) == 1 {
+						rhs := ast.Unparen(x.Rhs[0])
+						for {
+							cv, ok := rhs.(*ast.CallExpr)
+							if !ok || len(cv.Args) != 1 {
+								break
+							}
+							if tv, ok := info.Types[cv.Fun]; ok && tv.IsType() {
+								rhs = ast.Unparen(cv.Args[0])
+								continue
+							}
+							if isBuiltin(info, cv, "len") {
+								tExpr = cv.Args[0]
+								if id, ok := x.Lhs[0].(*ast.Ident); ok {
+									idxVar = info.Uses[id]
+									if idxVar == nil {
+										idxVar = info.Defs[id]
+									}
+								}
+							}
+							break
+						}
+					}
+				}
+				return true
+			})
+			if mExpr == nil || tExpr == nil {
+				out = append(out, Obligation{Key: fmt.Sprintf("%s#%s.map", name, q), Pos: c.Position(st.kpos), Status: Undecided,
+					Detail: fmt.Sprintf("%s is terminated by %d and filled from %s, but the map and table of %s were not recognised", q, st.k, st.f.Name(), st.f.Name())})
+				continue
+			}
+			mText, tText := nodeText(c.Fset, mExpr), nodeText(c.Fset, tExpr)
+			mob := Obligation{Key: fmt.Sprintf("%s#%s.map", name, q), Pos: c.Position(st.kpos), Status: OK}
+			tob := Obligation{Key: fmt.Sprintf("%s#%s.table", name, q), Pos: c.Position(st.kpos), Status: OK}
+			var mbad, tbad, mok, tok []string
+			for _, hd := range c.FuncDecls(p) {
+				ast.Inspect(hd.Body, func(n ast.Node) bool {
+					as, ok := n.(*ast.AssignStmt)
+					if !ok || len(as.Lhs) != len(as.Rhs) {
+						return true
+					}
+					for i, l := range as.Lhs {
+						if ix, ok := ast.Unparen(l).(*ast.IndexExpr); ok && nodeText(c.Fset, ix.X) == mText {
+							where := c.Position(as.Pos())
+							if k, isConst := constInt(as.Rhs[i]); isConst {
+								msg := fmt.Sprintf("%s = %d at %s stores a constant index", nodeText(c.Fset, l), k, where)
+								if k == st.k {
+									msg += fmt.Sprintf(", and it is the terminator of %s: a string with this index ends the element's list early and shifts everything after it", q)
+								}
+								mbad = append(mbad, msg)
+							} else if id, ok := ast.Unparen(as.Rhs[i]).(*ast.Ident); ok && hd == gd && info.Uses[id] == idxVar {
+								mok = append(mok, where)
+							} else {
+								mbad = append(mbad, fmt.Sprintf("%s = %s at %s is not the index taken from len(%s)", nodeText(c.Fset, l), nodeText(c.Fset, as.Rhs[i]), where, tText))
+							}
+						}
+						if nodeText(c.Fset, l) == tText {
+							where := c.Position(as.Pos())
+							switch r := ast.Unparen(as.Rhs[i]).(type) {
+							case *ast.SliceExpr:
+								if nodeText(c.Fset, r.X) == tText && r.High != nil {
+									if k, ok := constInt(r.High); ok && k > st.k {
+										tok = append(tok, where)
+									} else {
+										tbad = append(tbad, fmt.Sprintf("%s at %s does not keep the reserved entries (needs more than %d)", nodeText(c.Fset, as), where, st.k))
+									}
+								}
+							case *ast.CallExpr:
+								if isBuiltin(info, r, "make") && len(r.Args) >= 2 {
+									if k, ok := constInt(r.Args[1]); ok && k > st.k {
+										tok = append(tok, where)
+									} else {
+										tbad = append(tbad, fmt.Sprintf("%s at %s creates the table without the reserved entries", nodeText(c.Fset, as), where))
+									}
+								}
+							}
+						}
+					}
+					return true
+				})
+			}
+			// composite literal initialisation of T: &pb.StringTable{S: make([][]byte, 1, …)}
+			selName := tText[strings.LastIndex(tText, ".")+1:]
+			for _, hd := range c.FuncDecls(p) {
+				ast.Inspect(hd.Body, func(n ast.Node) bool {
+					kv, ok := n.(*ast.KeyValueExpr)
+					if !ok {
+						return true
+					}
+					if k, ok := kv.Key.(*ast.Ident); ok && k.Name == selName {
+						if r, ok := ast.Unparen(kv.Value).(*ast.CallExpr); ok && isBuiltin(info, r, "make") && len(r.Args) >= 2 {
+							if k, ok := constInt(r.Args[1]); ok && k > st.k {
+								tok = append(tok, c.Position(kv.Pos()))
+							} else {
+								tbad = append(tbad, fmt.Sprintf("%s at %s creates the table without the reserved entries", nodeText(c.Fset, kv), c.Position(kv.Pos())))
+							}
+						}
+					}
+					return true
+				})
+			}
+			if len(mbad) > 0 {
+				mob.Status, mob.Detail = Violation, strings.Join(mbad, "; ")
+			} else {
+				mob.Detail = fmt.Sprintf("%s is terminated by %d; its indices come from %s, whose map %s is filled only with len(%s) (at %s)", q, st.k, st.f.Name(), mText, tText, strings.Join(mok, ", "))
+			}
+			if len(tbad) > 0 {
+				tob.Status, tob.Detail = Violation, strings.Join(tbad, "; ")
+			} else if len(tok) == 0 {
+				tob.Status, tob.Detail = Undecided, fmt.Sprintf("no creation or re-slice of %s found: cannot tell that index %d stays reserved", tText, st.k)
+			} else {
+				tob.Detail = fmt.Sprintf("%s always keeps more than %d entries (created/re-sliced at %s), so len(%s) never hands out the terminator", tText, st.k, strings.Join(tok, ", "), tText)
+			}
+			out = append(out, mob, tob)
 		}
 	}
 	return out
